@@ -203,6 +203,9 @@ def make_witness(R, pid, what):
             p_ = hubnative.serve_prologue_check(R, oid, key)
             if p_["confirmed"]:
                 return p_
+            p_ = hubnative.serve_session_check(R, oid, key)
+            if p_["confirmed"]:
+                return p_
         only = {"handle_put": lambda c: c["op"] == "put", "handle_delete": lambda c: c["op"] == "delete", "handle_get": lambda c: c["op"] == "get"}.get(what)
         r = hubnative.conformance(R, pid, oid, key, only)
         if r["confirmed"]:
